@@ -80,5 +80,7 @@ fn main() {
             Err(p) => format!("PANIC {}", panic_class(&*p)),
         };
         writeln!(out, "{line} => {ans}").unwrap();
+        // flushed per request: when the process aborts, the engine sees which request it died on
+        out.flush().unwrap();
     }
 }
